@@ -441,6 +441,10 @@ func runCache(o *Out, rng *RNG, tier string, prop string, replay string) {
 		}
 		runCase(i, r, nil)
 	}
+	// a FAILED directory copy keeps what it copied (known finding K-C06, reproduced on every run)
+	if prop == "C06" && only < 0 {
+		c06FailedDirCopyProbe(o)
+	}
 	// fault sweep (C06: "every position of an injected remote failure during Commit")
 	if prop == "C06" {
 		nSweep := 30
@@ -508,4 +512,37 @@ func walkDesc(w []WalkEnt) []map[string]interface{} {
 		l[i] = map[string]interface{}{"path": strings.Join(e.Path, "/"), "dir": e.IsDir, "data": byteList(e.Data)}
 	}
 	return l
+}
+
+// c06FailedDirCopyProbe: remote {d/a, d/b/, e/b (a FILE)}; Copy(d, e) through the cache must fail (e/b
+// is in the way of d/b) - and an operation that failed must not reach the remote at the next Commit.
+func c06FailedDirCopyProbe(o *Out) {
+	remote, _ := memfs.NewFilespace()
+	must(remote.WriteFile("d/a", []byte("1"), 0o644))
+	must(remote.MkdirAll("d/b", 0o777))
+	must(remote.WriteFile("e/b", []byte("2"), 0o644))
+	before, _, _ := walkFs(remote)
+	cache, err := fscache.NewMemCache(remote)
+	must(err)
+	desc := map[string]interface{}{"op": "failed-directory-copy", "remote": walkDesc(before), "copy": []string{"d", "e"}}
+	res := withTimeout(10*1e9, func() FsOut { return errOut(cache.Copy("d", "e")) })
+	if res.Kind != "err" {
+		o.Stat("failed_dircopy_probe_not_failing")
+		return // the copy succeeded (merge semantics changed): nothing to say here, the histories judge it
+	}
+	if res2 := withTimeout(10*1e9, func() FsOut { return errOut(cache.Commit()) }); res2.Kind != "unit" {
+		o.Fail("C06_oracle", "Commit after a failed directory copy failed: "+res2.Msg, "commit-failed", desc)
+		return
+	}
+	after, ok, why := walkFs(remote)
+	if !ok {
+		o.Fail("C06_oracle", "remote walk failed: "+why, "walk", desc)
+		return
+	}
+	if eq, diff := walkEqual(after, before); !eq {
+		o.Fail("C06_oracle", "Copy(d, e) through the cache returned an error, yet after the next Commit the remote differs from the initial tree (no successful operation was applied): "+diff,
+			"K-C06-failed-dircopy-partial", desc)
+	}
+	o.Stat("failed_dircopy_probe")
+	o.CountEval("faileddircopy", true)
 }
